@@ -115,10 +115,13 @@ impl<'tx> Tx<'tx> {
             false => TxLock::Ro(db.inner.mmap_lock.read()?),
         };
         let mut freelist = db.inner.freelist.lock()?.clone();
-        let mut meta = db.inner.meta()?;
-        debug_assert!(meta.valid());
+        let mut meta;
         {
+            // read the meta page while holding the open_ro_txs lock, so a read-only tx is
+            // registered before any writer can decide which pages to release
             let mut open_ro_txs = db.inner.open_ro_txs.lock().unwrap();
+            meta = db.inner.meta()?;
+            debug_assert!(meta.valid());
             if writable {
                 meta.tx_id += 1;
                 if open_ro_txs.len() > 0 {
